@@ -57,6 +57,7 @@ type ctx struct {
 	// case writer
 	corr     string   // Corr module name, e.g. "C20"
 	casesBuf []string // Coq terms, one per case
+	preamble []string // Coq definitions emitted before the cases of every shard
 	inputs   []any
 	distinct map[string]bool
 	hist     map[string]map[string]int
@@ -145,6 +146,10 @@ func (c *ctx) finish() {
 		}
 		var b strings.Builder
 		fmt.Fprintf(&b, "From Coq Require Import String.\nFrom Coq Require Import List NArith ZArith.\nFrom PK.Base Require Import Bytes.\nFrom PK.Corr Require Import %s.\nImport ListNotations.\nLocal Open Scope N_scope.\nLocal Open Scope string_scope.\n", c.corr)
+		for _, p := range c.preamble {
+			b.WriteString(p)
+			b.WriteString("\n")
+		}
 		fmt.Fprintf(&b, "Definition cases : list %s_case := [\n", strings.ToLower(c.corr))
 		for i := lo; i < hi; i++ {
 			b.WriteString("  ")
